@@ -286,8 +286,8 @@ def harnesses(tier, seed):
                               what=f"{rn} on independently written files of {name} (block structure)"))
         # (iii) append with the real Writer to an independently written file
         if th or name in ("rec_flat", "prim_int", "union_prims", "rec_empty"):
-            call = "ob_append_foreign(C, v, (False, False), present, ci, ai, si)"
-            ps = f"v: List[{a}], present: bool, ci: int, ai: int, si: int"
+            call = "ob_append_foreign(C, v, (False, False), present, ci, ai, 1)"
+            ps = f"v: List[{a}], present: bool, ci: int, ai: int"
             hs.append(Harness(f"layout.append_foreign.{name}", "props.l5", ps, call + "[0]", replay_call=call, setup=setup,
                               what=f"append to an independently written file of {name}"))
         # (ii) header chunking symbolic over a one-record file (once per schema, reader only)
